@@ -12,7 +12,7 @@ from ..paths import first_line
 from ..repo import AnalysisError, call_name, calls_in
 from . import nodetables as N
 from . import traversal as T
-from .c01 import pass_only_rule, pull_locations_rule
+from .c01 import pass_only_rule, pull_guards_rule, pull_locations_rule
 
 NODE = "cartgraph/node.py"
 
@@ -173,6 +173,7 @@ def run(ctx: Ctx) -> None:
     ctx.call(N.pick_agreement, "3pc", "cleanup")
     ctx.call(pass_only_rule, "4")
     ctx.call(pull_locations_rule, "5")
+    ctx.call(pull_guards_rule, "5g")
     ctx.call(access_params_rule, "6")
     ctx.call(run_task_rule, "7")
     ctx.call(session_identity, "8")
